@@ -95,6 +95,6 @@ def idemWitnesses : List String := [
 
 /-- the protocol lines of the counter-examples -/
 def witnessLines : List String :=
-  (tokenWitnesses ++ idemWitnesses).map fun s => "rt " ++ Hex.encode (str s)
+  (tokenWitnesses ++ idemWitnesses).map fun s => "rt " ++ Hex.encode s.toUTF8.toList
 
 end CaddyModel.C17
